@@ -291,6 +291,9 @@ pub fn run_check(spec: &PropSpec, args: &CheckArgs) -> i32 {
                         let (ledger, entries) = run_one(spec, args.seed, run);
                         local.runs_done += 1;
                         local.stats.merge(&ledger.stats);
+                        for pr in crate::probes::probes_of(&ledger) {
+                            local.stats.probe(pr);
+                        }
                         if ledger.truncated {
                             local.truncated_runs += 1;
                         }
